@@ -15,6 +15,7 @@ import (
 	"runtime/debug"
 	"sort"
 	"strings"
+	"time"
 )
 
 // Rand is splitmix64.
@@ -261,6 +262,40 @@ func jsonable(v interface{}) interface{} {
 func Sha(b []byte) string {
 	s := sha256.Sum256(b)
 	return hex.EncodeToString(s[:8])
+}
+
+// WriteAhead stores data the next library call is about to see in <journal>.wa (replaced per call), so that
+// the driver can attach it to a crash that kills the process (fatal errors are not recoverable).
+func (cs *Case) WriteAhead(label string, data []byte) {
+	name := cs.journal.Name() + ".wa"
+	f, err := os.OpenFile(name, os.O_CREATE|os.O_WRONLY|os.O_TRUNC, 0644)
+	if err != nil {
+		return
+	}
+	fmt.Fprintf(f, "%d %s\n", cs.Idx, label)
+	f.Write([]byte(hex.EncodeToString(data)))
+	f.Close()
+}
+
+// Guarded runs f with a per-call watchdog. If f has not returned after the budget, a "hang-suspect" event is
+// flushed and the process exits with status 4: the driver re-runs the case alone to confirm (a wall-clock
+// limit that fires only under load is inconclusive, never a violation).
+func (cs *Case) Guarded(label string, budget time.Duration, f func()) {
+	done := make(chan struct{})
+	go func() {
+		select {
+		case <-done:
+		case <-time.After(budget):
+			d := map[string]interface{}{"label": label, "budget_s": budget.Seconds()}
+			for k, v := range cs.info {
+				d[k] = v
+			}
+			cs.Ctx.emit(event{"t": "hang-suspect", "sig": "hang:" + label, "idx": cs.Idx, "phase": cs.Phase, "detail": d})
+			os.Exit(4)
+		}
+	}()
+	defer close(done)
+	f()
 }
 
 // Res records a result to be joined across build flavours by the driver (key must be flavour independent).
